@@ -37,7 +37,8 @@ def runLine (line : String) : Driver.Result :=
   | ["jlkeep", _, what, a, b] => Driver.JlCase.runKeep what a b
   | ["imp", prop, f, ty, src, ext, impl] => Driver.TypedCase.runImp prop f ty src ext impl
   | ["typed", _, f, ty, src, ext, w, b1, b2] => Driver.TypedCase.runTyped f ty src ext w b1 b2
-  | ["twice", _, zone, ti, to, line, ext, first, second] => Driver.TypedCase.runTwice zone ti to line ext first second
+  | ["twice", _, zone, ti, to, line, ext, first, second] => Driver.TypedCase.runTwice zone ti to line ext first second ""
+  | ["twice", _, zone, ti, to, line, ext, first, second, hint] => Driver.TypedCase.runTwice zone ti to line ext first second hint
   | ["timert", _, zone, src, ext, s1, s2, s3, s4] => Driver.TimeCase.runCase zone src ext s1 s2 s3 s4
   | ["alias", _, tmpl, ops, ext, obs] => Driver.AliasCase.runCase tmpl ops ext obs
   | ["conc", _, tmpl, cfg, impl] =>
